@@ -64,6 +64,8 @@ pub struct CrateCfg {
     /// build the library as a cdylib with panic = "abort": a final artifact, so a hidden dependency on an
     /// allocator shows up when it is linked
     pub cdylib: bool,
+    /// further Cargo.toml text (e.g. a [features] table of the user crate)
+    pub extra_toml: String,
 }
 
 impl CrateCfg {
@@ -82,6 +84,7 @@ impl CrateCfg {
             target_dir: None,
             every_nth: 1,
             cdylib: false,
+            extra_toml: String::new(),
         }
     }
 }
@@ -150,6 +153,7 @@ edition = "2021"
 {vrt}
 {extra}
 
+{extra_toml}
 [workspace]
 
 [profile.dev]
@@ -173,6 +177,7 @@ debug-assertions = false
 opt-level = 2
 "#,
         id = cfg.id,
+        extra_toml = cfg.extra_toml,
         lib = if cfg.cdylib { "[lib]\ncrate-type = [\"cdylib\"]\n" } else { "" },
         panic = if cfg.cdylib { "panic = \"abort\"" } else { "" },
         strum = strum_dep,
